@@ -284,29 +284,7 @@ func genRejected(rt *rapid.T) (string, []string) {
 
 func TestStructuredErrors(t *testing.T) {
 	hx.Rule("structured_errors", "rejected inputs (single-token corruptions of G-SQL statements in one-line and multi-line layouts, lexical errors of 13 kinds after a valid prefix, soup, nesting beyond the depth limit in 5 constructs, bad statement starts) x 15 entry points; every reported error must unwrap to *errors.Error with a documented code of the failing stage's family, non-empty message, in-range location when set, reachable cause, and be identical on a second call after unrelated parses; non-trivial = the failing token is not the first token; distinct = (entry, class, code)")
-	errCheck.Rapid(t, hx.N(40000, 400000), func(rt *rapid.T) ErrCase {
-		s, cl := genRejected(rt)
-		e := rapid.SampledFrom(entries).Draw(rt, "entry")
-		nt := false
-		for _, c := range cl {
-			if c == "failing_token_not_first" {
-				nt = true
-			}
-		}
-		code := ""
-		if errs := call("gosqlx.Parse", s); len(errs) > 0 {
-			var se *goerrors.Error
-			if errors.As(errs[0], &se) {
-				code = string(se.Code)
-			}
-			cl = append(cl, "code_"+code, "rejected")
-		} else {
-			cl = append(cl, "accepted_after_corruption")
-		}
-		hx.Case("structured_errors", nt && code != "", e+"|"+strings.Join(cl, ",")+fmt.Sprint(len(s)/8), append(cl, "entry_"+e)...)
-		hx.Sample("structured_errors", map[string]string{"entry": e, "sql": s})
-		return ErrCase{SQL: s, Entry: e}
-	})
+	errCheck.Rapid(t, hx.N(40000, 400000), genStructuredErrors)
 }
 
 // ---------------------------------------------------------------- an error does not depend on the statements before it
@@ -412,3 +390,31 @@ func TestErrorIndependentOfEarlierStatements(t *testing.T) {
 		return c
 	})
 }
+
+// genStructuredErrors is the case generator of errCheck (shared by the rapid run and the native fuzz target).
+func genStructuredErrors(rt *rapid.T) ErrCase {
+	s, cl := genRejected(rt)
+	e := rapid.SampledFrom(entries).Draw(rt, "entry")
+	nt := false
+	for _, c := range cl {
+		if c == "failing_token_not_first" {
+			nt = true
+		}
+	}
+	code := ""
+	if errs := call("gosqlx.Parse", s); len(errs) > 0 {
+		var se *goerrors.Error
+		if errors.As(errs[0], &se) {
+			code = string(se.Code)
+		}
+		cl = append(cl, "code_"+code, "rejected")
+	} else {
+		cl = append(cl, "accepted_after_corruption")
+	}
+	hx.Case("structured_errors", nt && code != "", e+"|"+strings.Join(cl, ",")+fmt.Sprint(len(s)/8), append(cl, "entry_"+e)...)
+	hx.Sample("structured_errors", map[string]string{"entry": e, "sql": s})
+	return ErrCase{SQL: s, Entry: e}
+}
+
+// FuzzStructuredErrors: coverage-guided search over the same generator (thorough tier).
+func FuzzStructuredErrors(f *testing.F) { errCheck.Fuzz(f, genStructuredErrors) }
